@@ -53,7 +53,9 @@ def events(tr):
                 stats['routes'] += 1
                 kinds.add(spec['kind'])
                 if rk == 2:
-                    out.append([2, 0, dest]); meta.append(fi + 1); stats['determined'] += 1
+                    jr = spec['routers'][node - 1] if spec['kind'] == 'nr' else None
+                    exp = ex(jr['jock']) if jr and jr['kind'] == 'jockey' else 0
+                    out.append([2, exp, dest]); meta.append(fi + 1); stats['determined'] += 1
                 elif spec['kind'] == 'tm':
                     row = spec['rows'][node - 1]
                     out.append([1, list(range(1, n + 1)) + [0], list(row) + [8 - sum(row)], U, dest]); meta.append(fi + 1)
@@ -61,7 +63,7 @@ def events(tr):
                 elif spec['kind'] == 'nr':
                     r = spec['routers'][node - 1]
                     kinds.add(r['kind'])
-                    if r['kind'] == 'direct':
+                    if r['kind'] in ('direct', 'jockey'):
                         out.append([2, ex(r['to']), dest]); stats['determined'] += 1
                     elif r['kind'] == 'leave':
                         out.append([2, 0, dest]); stats['determined'] += 1
@@ -102,7 +104,7 @@ class C09(Prop):
     id = 'C09'
     num = 9
     soft_clauses = (151, 154, 155)
-    regions = {'quick': [('routers', 320), ('core', 80), ('block', 40), ('renege', 40), ('preempt', 40), ('prio_reroute', 30), ('jsq_preempt', 80),
+    regions = {'quick': [('routers', 320), ('core', 80), ('block', 40), ('renege', 40), ('preempt', 40), ('prio_reroute', 30), ('jsq_preempt', 80), ('renege_jockey', 40),
                          ('sched_reroute', 20), ('dyn', 30), ('all', 80)]}
     rule = ('one case = one observed run; one acceptor event per routing / class-change decision with the specification taken from the '
             'configuration, the uniform draw consumed and the true queue sizes at that instant; non-trivial = the run had >= 1 JSQ/LB decision '
